@@ -38,6 +38,7 @@ Structs(R) == {"{" \o Join(q) \o "}" : q \in UNION {[1..k -> R] : k \in 1..MaxFi
 Nested == {"{int32:one;{string:utf8;[]int32:2}}", "{{bool:one};{float64:neg;{uint8:max}}}", "{[]string:3;{[2]int64;string:ascii}}"}
 
 RT(cd, sh) == [fam |-> "codec", kind |-> "roundtrip", codec |-> cd, shape |-> sh, expect |-> "roundtrip"]
+IL(cd, sh) == [fam |-> "codec", kind |-> "interleave", codec |-> cd, shape |-> sh, expect |-> "roundtrip"]
 Garbage == {"empty", "random", "truncate", "flip", "overflow", "wrongtype"}
 GB(cd, sh, g) == [fam |-> "codec", kind |-> "garbage", codec |-> cd, shape |-> sh, gclass |-> g, expect |-> "clean"]
 Dest == {"{int32:one;string:ascii;[2]int32}", "{[]string:2;bool:one}", "string:ascii", "int64:one", "{float64:frac;{uint8:max}}"}
@@ -48,10 +49,15 @@ Cases ==
   \cup {RT("xml", s) : s \in Structs(RepXml) \cup {"{" \o x \o "}" : x \in {y \in Scalars : ScalarOK(y) /\ y \notin {"bytes:rand", "bytes:empty"}} \cup Slices}}
   \cup {RT("form", s) : s \in Structs(RepForm) \cup {"{" \o x \o "}" : x \in {y \in Scalars : ScalarOK(y) /\ y \notin {"bytes:rand", "bytes:empty"}} \cup Slices \cup Arrays} \cup {"urlvalues"}}
   \cup {RT("protobuf", s) : s \in {"pb:empty", "pb:full", "pb:big"}}
-  \cup {RT("thrift", "thriftempty")}
+  \cup {RT("thrift", s) : s \in {"thriftempty", "thriftdoc:small", "thriftdoc:big"}}
+  \* the encoding of a value is not disturbed by later encodings (encode A, B, A', then decode all three)
+  \cup {IL(cd, s) : cd \in {"json"}, s \in {"{int32:neg;string:special;[]string:2}", "[]int64:3"}}
+  \cup {IL("xml", "{int32:neg;string:special;[]string:2}"), IL("form", "{int32:neg;string:special;[]string:2}"), IL("plain", "string:utf8"),
+        IL("protobuf", "pb:full"), IL("protobuf", "pb:big"), IL("thrift", "thriftdoc:small"), IL("thrift", "thriftdoc:big")}
   \cup {GB(cd, s, g) : cd \in {"json", "xml", "form", "plain"}, s \in Dest, g \in Garbage}
   \cup {GB(cd, s, g) : cd \in {"protobuf"}, s \in {"pb:full"}, g \in {"empty", "random", "truncate", "flip"}}
   \cup {GB(cd, s, g) : cd \in {"thrift"}, s \in {"thriftempty"}, g \in {"empty", "random"}}
+  \cup {GB("thrift", "thriftdoc:small", g) : g \in {"empty", "random", "truncate", "flip"}}
 
 VARIABLES c, done
 vars == <<c, done>>
